@@ -13,6 +13,7 @@ import numpy as np
 from rv import core, zoo, monitors
 
 LEVEL = 'exploration'
+LEVEL_TEXT = 'Contract on the real to_mef with distinct injective curves and every permutation of the pairing; covered requests must equal their own curve bitwise, others stay bit-identical, uncovered requests and length mismatches must raise; also evaluated on the partial built by get_transform_fxn (C02) and in the Excel workflow. Exploration.'
 TECHNIQUE = 'runtime contract on to_mef (own-curve oracle with distinct injective curves) + refusal driver'
 RULE = ('samples/arrays with 2..6 channels x lists of distinct injective curves (affine and power laws) x every '
         'permutation of the pairing for <=4 curves x requested subsets/orders/spellings incl. None, one uncovered '
